@@ -585,9 +585,25 @@ func ReadKeysAndCertElgAndEd25519(data []byte) (keysAndCert *KeysAndCert, remain
 	if err != nil {
 		return
 	}
+	if err = validateDeclaredKeySizes(keysAndCert.KeyCertificate, pubKeySize, sigKeySize); err != nil {
+		return
+	}
 
 	logElgEd25519Success(len(keysAndCert.Padding), len(remainder))
 	return
+}
+
+// validateDeclaredKeySizes rejects a key certificate whose declared key types do not have
+// the key sizes of the fixed layout a type-specific reader assumes. Accepting it would
+// return a value whose serialisation differs from the bytes it was read from.
+func validateDeclaredKeySizes(keyCert *key_certificate.KeyCertificate, pubKeySize, sigKeySize int) error {
+	if keyCert.CryptoSize() != pubKeySize || keyCert.SigningPublicKeySize() != sigKeySize {
+		return oops.Errorf(
+			"key certificate declares key sizes %d/%d, expected %d/%d for this key layout",
+			keyCert.CryptoSize(), keyCert.SigningPublicKeySize(), pubKeySize, sigKeySize,
+		)
+	}
+	return nil
 }
 
 // readKeysAndCertNonKeyCert handles parsing of KeysAndCert with non-KEY certificate types.
@@ -694,6 +710,9 @@ func ReadKeysAndCertX25519AndEd25519(data []byte) (keysAndCert *KeysAndCert, rem
 
 	keysAndCert.KeyCertificate, remainder, err = extractKeyCertificate(data, totalKeySize)
 	if err != nil {
+		return
+	}
+	if err = validateDeclaredKeySizes(keysAndCert.KeyCertificate, pubKeySize, sigKeySize); err != nil {
 		return
 	}
 
